@@ -60,6 +60,7 @@ type c05Use struct {
 // c05UsesOf lists the hazardous uses of document field df on a path.
 func c05UsesOf(df c05DocField, pa *c03Path) []c05Use {
 	is := func(v *c03V) bool {
+		v = c05Unassert(v)
 		return v != nil && v.IsInit("decoded") && v.Root.Obj == df.doc && len(v.Path) >= 1 && v.Path[0] == df.f
 	}
 	var out []c05Use
@@ -193,6 +194,7 @@ func c05J6(r *core.R) {
 			n++
 			c := "total@" + fi.Name() + " doc." + df.f.Name()
 			is := func(v *c03V) bool {
+				v = c05Unassert(v)
 				return v != nil && v.IsInit("decoded") && v.Root.Obj == df.doc && len(v.Path) >= 1 && v.Path[0] == df.f
 			}
 			x, paths := cx.run(fi, c05Scen{Tag: "any type " + df.f.Name()})
@@ -251,4 +253,12 @@ func c05J6(r *core.R) {
 	if n == 0 {
 		r.Anchor("interface-typed document field in an UnmarshalJSON method (version: number or string)")
 	}
+}
+
+// c05Unassert follows type assertions / type-switch bindings back to the value they narrow.
+func c05Unassert(v *c03V) *c03V {
+	for i := 0; v != nil && v.K == c03KInit && v.Root.Kind == "assert" && v.Root.Of != nil && len(v.Path) == 0 && i < 4; i++ {
+		v = v.Root.Of
+	}
+	return v
 }
